@@ -501,12 +501,59 @@ def run(ctx):
         i += 1
         if ctx.mine(i):
             compare_selector_state(ctx, k)
+    freshness_cases(ctx)
     for v in contracts.drain():
         ctx.violation("contract:" + v["contract"], v, "template-root-path-primitive" if False else None)
     ctx.count("contract_evaluations", sum(contracts.evaluations.values()))
     # hash-seed independence: shard 0 evaluates a fixed corpus in sub-processes with different PYTHONHASHSEEDs
     if ctx.shard == 0:
         hashseed_sweep(ctx)
+
+
+UUID4 = __import__("re").compile(r"[0-9a-f]{8}-[0-9a-f]{4}-4[0-9a-f]{3}-[89ab][0-9a-f]{3}-[0-9a-f]{12}")
+
+
+def freshness_cases(ctx):
+    """States.UUID() gives a new version-4 UUID at EVERY evaluation, wherever the call stands (top level, nested in other intrinsics, in several members of one
+    template, in a Map's ItemSelector across iterations and executions); States.MathRandom stays inside its range at every evaluation and is not frozen."""
+    from lsfverif.sim import mini
+    exprs = ["States.UUID()", "States.Format('job-{}', States.UUID())", "States.Array(States.UUID(), States.UUID())", "States.Format('{}/{}', States.UUID(), $.s)",
+             "States.JsonToString(States.UUID())", "States.StringSplit(States.UUID(), '-')"]        # (one level of nesting: deeper nesting is a listed finding)
+    for j, e in enumerate(exprs):
+        if not ctx.mine(j):
+            continue
+        ctx.evaluation(); ctx.count("freshness_cases"); ctx.nontrivial(["fresh", e])
+        seen, bad = [], None
+        for rep in range(6):
+            got = engine_eval(e)
+            if got[0] != "val":
+                bad = ("evaluation failed", got); break
+            text = json.dumps(got[1]).replace('", "', "-") if "StringSplit" in e else json.dumps(got[1])
+            ids = UUID4.findall(text)
+            if not ids:
+                bad = ("no version-4 UUID in the value", got[1]); break
+            seen += ids
+        if bad is None and len(set(seen)) != len(seen):
+            bad = ("the same UUID was produced by different evaluations", seen[:6])
+        if bad:
+            ctx.violation("uuid-not-fresh-at-every-evaluation", dict(expr=e, problem=bad[0], observed=bad[1]), None)
+    # through the engine: an ItemSelector evaluated once per iteration, in two executions
+    if ctx.mine(len(exprs)):
+        asl = {"StartAt": "M", "States": {"M": {"Type": "Map", "ItemsPath": "$.xs", "ItemSelector": {"job.$": "States.Format('job-{}', States.UUID())", "n.$": "States.MathAdd(States.MathRandom(0, 1000000), 0)"},
+                                                "ItemProcessor": {"StartAt": "w", "States": {"w": {"Type": "Pass", "End": True}}}, "End": True}}}
+        jobs, nums = [], []
+        for rep in range(3):
+            res = mini.run(asl, {"xs": [1, 2, 3, 4]})
+            ctx.evaluation(); ctx.count("freshness_cases")
+            if res["status"] != "SUCCEEDED":
+                ctx.violation("uuid-not-fresh-at-every-evaluation", dict(expr="ItemSelector", problem="execution did not succeed", observed=[res["status"], res.get("error")]), None)
+                break
+            jobs += [x["job"] for x in res["output"]]; nums += [x["n"] for x in res["output"]]
+        else:
+            if len(set(jobs)) != len(jobs):
+                ctx.violation("uuid-not-fresh-at-every-evaluation", dict(expr="ItemSelector of a Map, 4 items x 3 executions", problem="the same UUID in different iterations", observed=jobs[:5]), None)
+            if any(not (isinstance(x, int) and 0 <= x <= 1000000) for x in nums) or len(set(nums)) == 1:
+                ctx.violation("mathrandom-frozen-or-out-of-range", dict(observed=nums), None)
 
 
 def corpus_digest(seed, n):
